@@ -82,6 +82,7 @@ fn main() {
                 with_capacity: arg(&args, "--with-capacity", "0").parse().unwrap(),
                 tracked: flag(&args, "--tracked"),
                 clone_bisim: flag(&args, "--clone-bisim"),
+                post_pulls: flag(&args, "--post-pulls"),
                 keep: arg(&args, "--keep", "3").parse().unwrap(),
             };
             let threads: usize = arg(&args, "--threads", "12").parse().unwrap();
